@@ -377,6 +377,79 @@ impl<'c, Q: Queue> Interp<'c, Q> {
         }
     }
 
+    /// Deterministic continuations from clones of a state whose raw order is anomalous: pushes of a
+    /// new maximum / minimum / middle element, priority changes and removals of sampled elements,
+    /// each followed by the behavioural drain check. Only a continuation that returns a wrong answer
+    /// through the public API is reported.
+    pub fn witness_battery(&mut self, out: &mut Vec<RawFail>) {
+        let elems = self.model.elems();
+        let n = elems.len();
+        if n == 0 {
+            return;
+        }
+        let hi = self.model.max_prio().unwrap_or(0);
+        let lo = self.model.min_prio().unwrap_or(0);
+        let fresh = self.model.m.keys().next_back().map_or(0, |m| m.wrapping_add(1)).max(self.cfg.universe);
+        let stride = (n / 24).max(1);
+        let mut tries: Vec<(String, Box<dyn Fn(&mut Q, &mut Model)>)> = Vec::new();
+        for (j, np) in [hi.saturating_add(1), lo.saturating_sub(1), lo / 2 + hi / 2, hi, lo].into_iter().enumerate() {
+            tries.push((
+                format!("push of a new element with priority {}", np),
+                Box::new(move |q: &mut Q, m: &mut Model| {
+                    q.push(Key::new(fresh + j as u32, 0), Prio::new(np));
+                    m.set(fresh + j as u32, 0, np);
+                }),
+            ));
+        }
+        // several pushes in a row (a pop alone may silently repair the anomaly)
+        tries.push((
+            "eight pushes of ascending new maxima".to_string(),
+            Box::new(move |q: &mut Q, m: &mut Model| {
+                for j in 0..8u32 {
+                    let np = hi.saturating_add(1 + j as i64);
+                    q.push(Key::new(fresh + 10 + j, 0), Prio::new(np));
+                    m.set(fresh + 10 + j, 0, np);
+                }
+            }),
+        ));
+        for (i, e) in elems.iter().enumerate() {
+            if i % stride != 0 {
+                continue;
+            }
+            let id = e.0;
+            for np in [hi.saturating_add(1), lo.saturating_sub(1)] {
+                tries.push((
+                    format!("change_priority({}, {})", id, np),
+                    Box::new(move |q: &mut Q, m: &mut Model| {
+                        q.change_priority(&id, Prio::new(np));
+                        m.set_prio(id, np);
+                    }),
+                ));
+            }
+            tries.push((
+                format!("remove({})", id),
+                Box::new(move |q: &mut Q, m: &mut Model| {
+                    q.remove(&id);
+                    m.remove(id);
+                }),
+            ));
+        }
+        for (what, f) in tries {
+            let mut c = self.q.clone();
+            let mut m = self.model.clone();
+            f(&mut c, &mut m);
+            let mut o = Vec::new();
+            check_queue(&c, &m, 0, true, false, &mut o);
+            if o.is_empty() {
+                drain_check(&c, &m, self.case.drain_bits, &mut o);
+            }
+            if let Some(first) = o.into_iter().find(|x| matches!(x.0, Group::Order | Group::Content)) {
+                out.push((first.0, first.1, format!("after the continuation [{}] from this state: {}", what, first.2)));
+                return;
+            }
+        }
+    }
+
     // ------------------------------------------------------------------ state check
 
     pub fn check_state(&mut self) {
@@ -406,7 +479,14 @@ impl<'c, Q: Queue> Interp<'c, Q> {
                 drain_check(&self.q, &self.model, self.case.drain_bits, &mut out);
                 self.stats.hit("drain_check");
                 if out.is_empty() && self.cfg.tables && !order_ok(&self.q.snapshot(), Q::DOUBLE) {
-                    self.stats.hit("order_anomaly_without_witness");
+                    // the raw heap order is broken but plain draining does not show it: look for a
+                    // behavioural witness among single-step continuations on clones
+                    self.witness_battery(&mut out);
+                    if out.is_empty() {
+                        self.stats.hit("order_anomaly_without_witness");
+                    } else {
+                        self.stats.hit("order_anomaly_witness_by_battery");
+                    }
                 }
             }
         }
